@@ -494,12 +494,28 @@ async def check_lost_wakeup(mon, build):
         return
     if handler.scheduler.draining or len(handler.builder.running_tasks) >= handler.builder.njob:
         return
+    # The job loop has to be parked on its wake-up event: between clearing the event and its
+    # next pop it awaits other things (reports), and an eligible step seen then is about to
+    # be dispatched, not forgotten.
+    task = getattr(build, "job_loop_task", None)
+    if task is not None and not task.done():
+        coro = task.get_coro()
+        while getattr(getattr(coro, "cr_await", None), "cr_code", None) is not None:
+            coro = coro.cr_await
+        code = getattr(coro, "cr_code", None)
+        parked = code is not None and code.co_name == "wait" and code.co_filename.endswith("locks.py")
+        if not parked:
+            mon.count("quiescent_checks_skipped_loop_not_parked")
+            return
     db = handler.db
     async with db:
         snap = snapshot(db._held.con)
     mon.count("quiescent_checks")
     left = eligible_left(snap)
     if left:
+        recent = [(e["type"], e.get("name"), str(e.get("args", e.get("step", "")))[:60])
+                  for e in build.events[-10:]]
         mon.finding("eligible step while the job loop is parked (lost wake-up)",
                     f"eligible: {left[:3]} running={len(handler.builder.running_tasks)} "
-                    f"njob={handler.builder.njob}", {"eligible": left[:3]})
+                    f"njob={handler.builder.njob} last transactions={mon.history[-6:]} "
+                    f"last events={recent}", {"eligible": left[:3]})
